@@ -111,6 +111,10 @@ func fieldComp(so Sort, field string) string { return "F!" + string(so) + "!" + 
 // type is t.  Arrays of different Go element types can never alias (no unsafe
 // code in the verified subset), so they live in different components.
 func memCompT(t types.Type) string {
+	t = types.Unalias(t)
+	if b, ok := t.(*types.Basic); ok {
+		t = types.Typ[b.Kind()] // byte ≡ uint8, rune ≡ int32
+	}
 	n := "M!" + sanitize(typeName(t))
 	compElemTypes[n] = t
 	return n
@@ -662,6 +666,23 @@ func (e *SpecEnv) call(x ECall) SVal {
 		rt := sig.Results().At(idx).Type()
 		so := e.W.Sorts.SortOf(rt)
 		return SVal{T: App(e.W.AppFun("app", sorts, so, idx), so, args...), Go: rt}
+	case "beq": // beq(b, "lit"): byte slice b spells the literal
+		v := e.value(e.eval(x.Args[0]))
+		lit, ok := x.Args[1].(EStr)
+		if !ok {
+			sfail("beq(b, \"literal\")")
+		}
+		st, ok := v.Go.Underlying().(*types.Slice)
+		if v.Go == nil || !ok {
+			sfail("beq() of non-slice")
+		}
+		es := e.W.Sorts.SortOf(st.Elem())
+		arr := Sel(e.Heap.Comp(memCompT(st.Elem()), memSort(es)), SArr(v.T))
+		cs := []Term{Eq(SLen(v.T), IntLit(int64(len(lit.Val))))}
+		for i := 0; i < len(lit.Val); i++ {
+			cs = append(cs, Eq(e.W.Sorts.Elt(arr, SOff(v.T), IntLit(int64(i))), IntLit(int64(lit.Val[i]))))
+		}
+		return SVal{T: And(cs...), Go: boolT}
 	case "mem": // mem(s): the backing array of slice s as a spec array
 		v := e.value(e.eval(x.Args[0]))
 		st, ok := v.Go.Underlying().(*types.Slice)
